@@ -231,16 +231,22 @@ def check_status_failures(obs):
     an exception or the task ended."""
     bad = []
     armed = None
+    alive = set()       # statuses handed out by the task that is still running (or paused): their failures may not be pardoned.
+    #                     The engine's own `pardon` flag is not taken on trust: it is legitimate only once `_run` has reached its
+    #                     finally block (no message is processed after that, so such a failure is disarmed by the end of the task).
     for ev, os_ in merge(obs):
-        if ev[0] == "status_done" and not ev[2] and not ev[3]:
+        if ev[0] == "status_done" and not ev[2] and (not ev[3] or ev[1] in alive):
             armed = ev[1]
         if ev[0] == "main" and ev[1] == "call":
             armed = None
         for x in os_:
+            if x[0] == "resp" and isinstance(x[1], list) and len(x[1]) == 2 and x[1][0] == "status":
+                alive.add(x[1][1])
             if x[0] == "plan_in" and x[2][0] == "throw":
                 armed = None
             elif x[0] == "task" and (x[1] == "return" or str(x[1]).startswith("raise")):
                 armed = None
+                alive.clear()
             elif x[0] == "msg" and armed is not None:
                 bad.append(("late-failure", "status %d failed but message %r was processed before the failure reached a plan" % (armed, x[2])))
                 armed = None
